@@ -145,6 +145,15 @@ func (r *recImpl) Stream(c *dyn.Call) error { r.n++; r.method = c.Method; return
 // newRouteMux registers the schema's service with the given service-config rules (in the
 // given order) and the gsd method order given by methodOrder (nil = natural).
 func (s *routeSchema) newMux(rules []boundRule, methodOrder []int, extra ...larking.MuxOption) (*larking.Mux, *recImpl, error) {
+	m, impl, err := s.newMuxNoRegister(rules, extra...)
+	if err != nil {
+		return nil, nil, err
+	}
+	return s.registerAll(m, impl, methodOrder)
+}
+
+// newMuxNoRegister creates the mux with the rules as service config, nothing registered yet.
+func (s *routeSchema) newMuxNoRegister(rules []boundRule, extra ...larking.MuxOption) (*larking.Mux, *recImpl, error) {
 	sc := &serviceconfig.Service{Http: &annotations.Http{}}
 	for _, br := range rules {
 		r := br.Rule
@@ -160,7 +169,10 @@ func (s *routeSchema) newMux(rules []boundRule, methodOrder []int, extra ...lark
 	if err != nil {
 		return nil, nil, err
 	}
-	impl := &recImpl{schema: s}
+	return m, &recImpl{schema: s}, nil
+}
+
+func (s *routeSchema) registerAll(m *larking.Mux, impl *recImpl, methodOrder []int) (*larking.Mux, *recImpl, error) {
 	if s.multi {
 		order := methodOrder
 		if order == nil {
@@ -301,7 +313,7 @@ var smallAlphabet = tmplAlphabet{
 func enumTemplates(a tmplAlphabet, maxSeg int) []tmpl.T {
 	var out []tmpl.T
 	free := []string{"s", "t", "u"}
-	var rec func(parts []string, nfree int, usedNS, usedI bool)
+	var rec func(parts []string, nfree int, used string)
 	emit := func(parts []string) {
 		for _, v := range a.Verbs {
 			s := "/" + strings.Join(parts, "/")
@@ -315,41 +327,37 @@ func enumTemplates(a tmplAlphabet, maxSeg int) []tmpl.T {
 			out = append(out, t)
 		}
 	}
-	rec = func(parts []string, nfree int, usedNS, usedI bool) {
+	rec = func(parts []string, nfree int, used string) {
 		if len(parts) > 0 {
-			// parts is a complete template if its last element may be last (always true).
 			emit(parts)
 		}
 		if len(parts) == maxSeg {
 			return
 		}
 		add := func(form string, lastOnly bool) {
-			nf, ns, ni := nfree, usedNS, usedI
+			nf, us := nfree, used
 			if strings.Contains(form, "$") {
 				if nf >= len(free) {
 					return
 				}
 				form = strings.Replace(form, "$", free[nf], 1)
 				nf++
-			}
-			if strings.HasPrefix(form, "{n.s") {
-				if ns {
+			} else if strings.HasPrefix(form, "{") {
+				name := strings.TrimPrefix(form, "{")
+				if k := strings.IndexAny(name, "=}"); k >= 0 {
+					name = name[:k]
+				}
+				if strings.Contains(us, "|"+name+"|") {
 					return
 				}
-				ns = true
-			}
-			if form == "{i}" {
-				if ni {
-					return
-				}
-				ni = true
+				us += "|" + name + "|"
 			}
 			np := append(append([]string{}, parts...), form)
 			if lastOnly {
 				emit(np)
 				return
 			}
-			rec(np, nf, ns, ni)
+			rec(np, nf, us)
 		}
 		for _, f := range a.Mid {
 			add(f, false)
@@ -358,7 +366,7 @@ func enumTemplates(a tmplAlphabet, maxSeg int) []tmpl.T {
 			add(f, true)
 		}
 	}
-	rec(nil, 0, false, false)
+	rec(nil, 0, "")
 	return out
 }
 
